@@ -76,6 +76,11 @@ def generate(rng, tier):
     n = 2000 if tier == "quick" else 50000
     cases = []
     so = "$ORIGIN example.com.\n@ IN SOA ns h 1 2 3 4 60\n"
+    # (fixed in 0286676) '@' under an origin whose leftmost label is '*': was loaded as an ordinary record at '*.e.',
+    # whose text reads back as a wildcard; now loaded as the wildcard it is
+    cases.append(rt("corpus", "$ORIGIN *.e.\n@ 5 IN A 1.2.3.4\n"))
+    cases.append(rt("corpus", so + "$ORIGIN *.example.com.\n@ 5 IN A 1.2.3.4\n"))
+    cases.append(rt("corpus", so + "$ORIGIN *.example.com.\n@ 5 IN A 1.2.3.4\n", "S"))
     # F5 (fixed in 080caf9): the label "@" relative to the apex
     cases.append(rt("corpus", so + "\\@.example.com. 300 IN A 1.2.3.4\n"))
     cases.append(rt("corpus", so + "\\@.example.com. 300 IN A 1.2.3.4\n", "S"))
